@@ -166,6 +166,18 @@ def check(ctx):
                     'field' if any("group('field_name')" in g for g in groups) else None
                 if kind:
                     seps[kind] = v.left.value
+    if not seps:
+        # table-driven form: a class-level table of (pattern, name format, group names, ...) rows walked by the parser
+        pc_ = py.cls('annotationparser', 'GtkDocCommentBlockParser')
+        for st_ in pc_.body:
+            if isinstance(st_, ast.Assign) and isinstance(st_.value, (ast.Tuple, ast.List)):
+                for row_ in st_.value.elts:
+                    if isinstance(row_, ast.Tuple) and len(row_.elts) >= 3 and isinstance(row_.elts[1], ast.Constant) and isinstance(row_.elts[1].value, str) \
+                            and isinstance(row_.elts[2], (ast.Tuple, ast.List)):
+                        groups = [g_.value for g_ in row_.elts[2].elts if isinstance(g_, ast.Constant)]
+                        kind = 'property' if 'property_name' in groups else 'signal' if 'signal_name' in groups else 'field' if 'field_name' in groups else None
+                        if kind and any(isinstance(x, ast.Attribute) and x.attr == st_.targets[0].id for x in ast.walk(pcb) if isinstance(st_.targets[0], ast.Name)):
+                            seps[kind] = row_.elts[1].value
     r2.check(seps == {'property': '%s:%s', 'signal': '%s::%s', 'field': '%s.%s'}, 'parser identifier formats', ap.rel, pcb.lineno, 'parser builds identifiers as %s' % seps, detail=seps)
     sites = []
     for mname, f in methods.items():
